@@ -444,7 +444,7 @@ func invalidateInPlace(g *model.Gen, y psatoken.IClaims) string {
 }
 
 func runC08(c *mon.Ctx) {
-	c.Rule("every claims-set class of C01 (valid, each single / double / triple rule violation, random products; both profiles; a registered P2-based extension with its own extra rule (negative timestamp) so that a gate that runs only the generic rules is visible) built by direct field assignment, plus objects whose only defect is a profile claim that does not match the implementing type (canonical name unset / foreign; an extension object carrying its base profile's name - not expressible on the wire), plus a second, stricter registered extension whose own rules are reported with the library's ignorable sentinels (mandatory boot seed -> missing-optional, forbidden VSI -> not-in-profile); pushed through the object-side gates (also: attached/encoded while valid, then made invalid IN PLACE through a clearing setter, an exported field or a retained component pointer, and pushed through the gates again) SetClaims, ValidateAndEncodeClaimsToCBOR, ValidateAndEncodeClaimsToJSON, ValidateAndSign (7 algorithms, signer wrapped to count invocations); extension-profile tokens (CBOR, JSON, COSE) that break only the extension's own rule; the wire tokens of C04 (valid / rule-breaking / type-breaking / open encodings), JSON documents of valid and rule-breaking sets, and COSE envelopes (tokens signed with the non-validating Sign, and C04 wire tokens wrapped + signed by the harness) pushed through DecodeAndValidateClaimsFromCBOR, DecodeAndValidateClaimsFromJSON, the deprecated DecodeJSONClaims, DecodeAndValidateEvidenceFromCOSE. Oracle: the library's own Validate() on the same object / on the non-validating sibling's result: Validate fails => the gate returns an error, no bytes, no object, attaches nothing (and never invokes the signer); Validate succeeds => the gate's result equals the non-validating sibling's (bytes, payload+protected header, claims observation, Verify). Envelopes whose payload is null / undefined / empty / bstr(null) (no claims-set at all) must not pass the validating COSE decoder; valid objects of an extension that makes the client id optional and drops the instance id from the profile pass every object gate. SetClaims(valid) on an Evidence that already holds an envelope (decoded / has signed) must leave Verify as the plain assignment does. Also claims whose Validate() PANICS (typed nil *P1Claims / *P2Claims; a registered extension with a careless validator, as object and as CBOR / JSON / COSE token lacking the extension claim; positive control with the claim): a gate may return an error or let the panic propagate but must never report success, hand out bytes, invoke the signer or attach; and VALID claims of an extension profile that was never registered go through every object gate exactly like through the non-validating sibling. distinct_nontrivial = distinct (gate family, profile, violated-claim classes) signatures")
+	c.Rule("every claims-set class of C01 (valid, each single / double / triple rule violation, random products; both profiles; a registered P2-based extension with its own extra rule (negative timestamp) so that a gate that runs only the generic rules is visible) built by direct field assignment, plus objects whose only defect is a profile claim that does not match the implementing type (canonical name unset / foreign; an extension object carrying its base profile's name - not expressible on the wire), plus a second, stricter registered extension whose own rules are reported with the library's ignorable sentinels (mandatory boot seed -> missing-optional, forbidden VSI -> not-in-profile); pushed through the object-side gates (also: attached/encoded while valid, then made invalid IN PLACE through a clearing setter, an exported field or a retained component pointer, and pushed through the gates again) SetClaims, ValidateAndEncodeClaimsToCBOR, ValidateAndEncodeClaimsToJSON, ValidateAndSign (7 algorithms, signer wrapped to count invocations); extension-profile tokens (CBOR, JSON, COSE) that break only the extension's own rule; the wire tokens of C04 (valid / rule-breaking / type-breaking / open encodings), JSON documents of valid and rule-breaking sets, and COSE envelopes (tokens signed with the non-validating Sign, and C04 wire tokens wrapped + signed by the harness) pushed through DecodeAndValidateClaimsFromCBOR, DecodeAndValidateClaimsFromJSON, the deprecated DecodeJSONClaims, DecodeAndValidateEvidenceFromCOSE. Oracle: the library's own Validate() on the same object / on the non-validating sibling's result: Validate fails => the gate returns an error, no bytes, no object, attaches nothing (and never invokes the signer); Validate succeeds => the gate's result equals the non-validating sibling's (bytes, payload+protected header, claims observation, Verify). CBOR / COSE / JSON tokens of a registered P1-derived extension (in CBOR the dispatcher decodes them as plain profile 1, whose validation refuses the foreign name: the gate must refuse as well). Envelopes whose payload is null / undefined / empty / bstr(null) (no claims-set at all) must not pass the validating COSE decoder; valid objects of an extension that makes the client id optional and drops the instance id from the profile pass every object gate. SetClaims(valid) on an Evidence that already holds an envelope (decoded / has signed) must leave Verify as the plain assignment does. Also claims whose Validate() PANICS (typed nil *P1Claims / *P2Claims; a registered extension with a careless validator, as object and as CBOR / JSON / COSE token lacking the extension claim; positive control with the claim): a gate may return an error or let the panic propagate but must never report success, hand out bytes, invoke the signer or attach; and VALID claims of an extension profile that was never registered go through every object gate exactly like through the non-validating sibling. distinct_nontrivial = distinct (gate family, profile, violated-claim classes) signatures")
 	if err := extprof.Register(extprof.ExtP2Name, extprof.ExtP1Name, extprof.ExtStrictName); err != nil {
 		c.Violation("harness/register", err.Error(), nil)
 		return
@@ -775,6 +775,33 @@ func runC08(c *mon.Ctx) {
 			})
 		}
 	}
+	// ---- tokens of a registered P1-DERIVED extension: in CBOR such a token names its
+	// profile under -75000 only, so the dispatcher decodes it as plain profile 1, whose
+	// validation refuses the foreign name - the validating gates must refuse it too
+	// (JSON: the member names the extension, which is selected and validates)
+	if err := extprof.Register(extprof.ExtP1Name); err != nil {
+		c.Violation("harness/register", err.Error(), nil)
+		return
+	}
+	for i := 0; i < c.N(1500, 30000); i++ {
+		a := g.Valid(1)
+		a.Canon, a.Profile = extprof.ExtP1Name, model.SP(extprof.ExtP1Name)
+		wire := refcbor.Encode(a.WireCBOR())
+		sig := "cbor|ExtP1|valid-under-the-extension"
+		c.Sig(sig)
+		guard("cbor decode gates (P1-derived extension)", map[string]any{"wire_hex": mon.Hex(wire)}, func() { c.Count("cbor-extp1:" + c08DecodeCBOR(c, wire, sig)) })
+		doc := a.WireJSON()
+		guard("json decode gates (P1-derived extension)", map[string]any{"json": string(doc)}, func() { c.Count("json-extp1:" + c08DecodeJSON(c, doc, "json|ExtP1|valid")) })
+		if i%3 == 0 {
+			k := ks[i%7]
+			prot := refcbor.Encode(refcbor.MapOf(refcbor.I(1), refcbor.I(coseAlgID[k.Name])))
+			if sg, err := k.Signer.Sign(rand.Reader, refcose.SigStructure(prot, wire)); err == nil {
+				tok := sign1Bytes(prot, nil, wire, sg)
+				guard("cose decode gates (P1-derived extension)", map[string]any{"token_hex": mon.Hex(tok)}, func() { c.Count("cose-extp1:" + c08DecodeCOSE(c, tok, k.Pub, "cose|ExtP1|valid-under-the-extension")) })
+			}
+		}
+	}
+	c.Floor("cbor-extp1:decoded-invalid", 500)
 	// ---- envelopes that carry NO claims-set (payload null / undefined / empty /
 	// a byte string holding null) and relaxed extensions' valid objects
 	for i := 0; i < c.N(800, 20000); i++ {
